@@ -220,6 +220,8 @@ func driverMain(id, tier string) int {
 	}
 	drv.deadline = time.Now().Add(budget)
 	im.Drive(p, r)
+	r.Add("divergences", 0)
+	r.Add("replays_checked", 0)
 	p.Close()
 	close(p.failed)
 	for f := range p.failed {
